@@ -76,7 +76,8 @@ impl Torrent {
 struct Peer {
     addr: String,
     id: [u8; 20],
-    stream: Option<DuplexStream>,
+    stream: Option<tokio::io::ReadHalf<DuplexStream>>,
+    out: Option<tokio::sync::mpsc::UnboundedSender<Vec<u8>>>,
     inbuf: Vec<u8>,
     closed_seen: bool,
     has: Vec<bool>,
@@ -87,6 +88,30 @@ struct Peer {
     we_unchoked_client: bool,
     pending: VecDeque<(usize, usize, usize)>,
     hold: usize, // answer only while more than `hold` requests are pending (withholds the last ones)
+    buf: usize,  // capacity of the in-memory stream (a small one makes the client block while writing)
+}
+
+/// The remote end of a connection: the driver reads from it; writes go through a queue served by a
+/// separate task, so a client that does not read (because it is itself blocked writing into a small
+/// stream) never blocks the driver.
+fn attach(peer: &mut Peer, s: DuplexStream) {
+    let (r, mut w) = tokio::io::split(s);
+    let (tx, mut rx) = tokio::sync::mpsc::unbounded_channel::<Vec<u8>>();
+    tokio::task::spawn_local(async move {
+        while let Some(bytes) = rx.recv().await {
+            if w.write_all(&bytes).await.is_err() {
+                break;
+            }
+        }
+    });
+    peer.stream = Some(r);
+    peer.out = Some(tx);
+}
+
+fn push(peer: &mut Peer, bytes: &[u8]) {
+    if let Some(tx) = peer.out.as_ref() {
+        let _ = tx.send(bytes.to_vec());
+    }
 }
 
 fn be32(v: usize) -> [u8; 4] {
@@ -292,6 +317,23 @@ fn main() {
         }
     }
 
+    // watchdog (real time): if the run does not come to an end (e.g. a task spins after the manager died),
+    // write what was recorded so far, plus the panics seen, and leave
+    {
+        let panics = panics.clone();
+        let out_path = out_path.clone();
+        let limit = sc["watchdog_s"].as_u64().unwrap_or(25);
+        std::thread::spawn(move || {
+            std::thread::sleep(Duration::from_secs(limit));
+            for p in panics.lock().unwrap().drain(..) {
+                emit("Panic", format!("\"msg\":\"{}\"", trace::esc(&p)));
+            }
+            emit("Hang", String::new());
+            let lines = trace::stop();
+            let _ = std::fs::write(&out_path, lines.join("\n") + "\n");
+            std::process::exit(0);
+        });
+    }
     let rt = tokio::runtime::Builder::new_current_thread().enable_all().start_paused(true).build().unwrap();
     let local = tokio::task::LocalSet::new();
     let lines = local.block_on(&rt, async move { run_scenario(sc, run.clone(), panics).await });
@@ -327,18 +369,19 @@ async fn run_scenario(sc: Value, run: std::path::PathBuf, panics: std::sync::Arc
         for x in p["has"].as_array().map(|v| v.clone()).unwrap_or_default() {
             has[x.as_u64().unwrap() as usize] = true;
         }
-        Peer { addr: p["addr"].as_str().unwrap().to_string(), id, stream: None, inbuf: vec![], closed_seen: false, has,
+        Peer { addr: p["addr"].as_str().unwrap().to_string(), id, stream: None, out: None, inbuf: vec![], closed_seen: false, has,
                auto_serve: p["serve"].as_str().unwrap_or("none").to_string(),
                corrupt: p["corrupt"].as_array().map(|v| v.iter().map(|x| x.as_u64().unwrap() as usize).collect()).unwrap_or_default(),
                lifo: p["lifo"].as_bool().unwrap_or(false), we_unchoked_client: false, pending: VecDeque::new(),
-               hold: p["hold"].as_u64().unwrap_or(0) as usize }
+               hold: p["hold"].as_u64().unwrap_or(0) as usize,
+               buf: p["buf"].as_u64().map(|b| b as usize).unwrap_or(buf_size) }
     }).collect();
 
     // tracker script: list of outcomes; a "peers" outcome lists peer indices to announce
     let mk_outcome = |o: &Value, peers: &Vec<Peer>| -> http::Outcome {
         match o["k"].as_str().unwrap() {
             "refused" => http::Outcome::Refused,
-            "status" => http::Outcome::Reply(o["code"].as_u64().unwrap() as u16, b"err".to_vec()),
+            "status" => http::Outcome::Reply(o["code"].as_u64().unwrap() as u16, o["hex"].as_str().map(|h| unhex(h)).unwrap_or(b"err".to_vec())),
             "body" => http::Outcome::Reply(200, unhex(o["hex"].as_str().unwrap())),
             "hang" => http::Outcome::Hang,
             _ => {
@@ -364,11 +407,17 @@ async fn run_scenario(sc: Value, run: std::path::PathBuf, panics: std::sync::Arc
         t.npieces, json!((0..t.npieces).map(|i| t.piece_len(i)).collect::<Vec<_>>()), hex(&info_hash), hex(&own_id),
         json!(peers.iter().map(|p| json!({"addr": p.addr, "id": hex(&p.id)})).collect::<Vec<_>>())));
 
+    // disk faults: a directory with the name of the piece file makes storing that piece fail
+    for p in sc["blocked"].as_array().map(|v| v.clone()).unwrap_or_default() {
+        let i = p.as_u64().unwrap() as usize;
+        let name = format!("{}.piece", t.hashes[i].iter().map(|b| format!("{:02X}", b)).collect::<String>());
+        let _ = std::fs::create_dir_all(run.join(name));
+    }
     // peers the client can connect to (listed by the tracker) must be reachable before the session starts
     for (i, p) in sc["peers"].as_array().unwrap().iter().enumerate() {
         if p["listen"].as_bool().unwrap_or(false) {
-            let s = net::register_outgoing(&peers[i].addr, buf_size);
-            peers[i].stream = Some(s);
+            let s = net::register_outgoing(&peers[i].addr, peers[i].buf);
+            attach(&mut peers[i], s);
         }
     }
     let mut session = rdest::Session::new(metainfo, own_id);
@@ -383,12 +432,12 @@ async fn run_scenario(sc: Value, run: std::path::PathBuf, panics: std::sync::Arc
         match op {
             "listen" => {
                 // make the peer reachable for an outgoing connection of the client
-                let s = net::register_outgoing(&peers[pi].addr, buf_size);
-                peers[pi].stream = Some(s);
+                let s = net::register_outgoing(&peers[pi].addr, peers[pi].buf);
+                attach(&mut peers[pi], s);
             }
             "connect" => {
-                match net::connect_incoming(&peers[pi].addr, buf_size) {
-                    Some(s) => peers[pi].stream = Some(s),
+                match net::connect_incoming(&peers[pi].addr, peers[pi].buf) {
+                    Some(s) => attach(&mut peers[pi], s),
                     None => emit("Note", "\"what\":\"listener gone\"".to_string()),
                 }
             }
@@ -406,9 +455,7 @@ async fn run_scenario(sc: Value, run: std::path::PathBuf, panics: std::sync::Arc
                 for c in cuts.iter().chain(std::iter::once(&bytes.len())) {
                     let c = std::cmp::min(*c, bytes.len());
                     if c > at {
-                        if let Some(s) = peers[pi].stream.as_mut() {
-                            let _ = s.write_all(&bytes[at..c]).await;
-                        }
+                        push(&mut peers[pi], &bytes[at..c]);
                         at = c;
                         quiesce().await;
                     }
@@ -427,13 +474,28 @@ async fn run_scenario(sc: Value, run: std::path::PathBuf, panics: std::sync::Arc
                     bytes.extend_from_slice(&encode_frame(f, &t, &info_hash, &peers[pi].id));
                     emit("Send", format!("\"peer\":\"{}\",\"f\":{}", peers[pi].addr, f));
                 }
-                if let Some(s) = peers[pi].stream.as_mut() {
-                    let _ = s.write_all(&bytes).await;
-                }
+                push(&mut peers[pi], &bytes);
+                tokio::task::yield_now().await;
                 tokio::time::advance(Duration::from_millis(step["ms"].as_u64().unwrap_or(2))).await;
+            }
+            "burst" => {
+                // frames of several peers written back to back, then one quiescence: the connection tasks
+                // and the manager find them (and the resulting commands/broadcasts) ready together
+                for part in step["parts"].as_array().unwrap() {
+                    let pj = part["peer"].as_u64().unwrap() as usize;
+                    let mut bytes = vec![];
+                    for f in part["frames"].as_array().unwrap() {
+                        bytes.extend_from_slice(&encode_frame(f, &t, &info_hash, &peers[pj].id));
+                        emit("Send", format!("\"peer\":\"{}\",\"f\":{}", peers[pj].addr, f));
+                        if f["k"] == "Unchoke" { peers[pj].we_unchoked_client = true; }
+                        if f["k"] == "Choke" { peers[pj].we_unchoked_client = false; peers[pj].pending.clear(); }
+                    }
+                    push(&mut peers[pj], &bytes);
+                }
             }
             "close" => {
                 peers[pi].stream = None;
+                peers[pi].out = None;
             }
             "advance" => {
                 // advance virtual time in slices so that timers fire in order and reactions happen
@@ -494,7 +556,10 @@ async fn react(peers: &mut Vec<Peer>, t: &Torrent, info_hash: &[u8; 20]) {
                     loop {
                         match tokio::time::timeout(Duration::ZERO, s.read(&mut tmp)).await {
                             Ok(Ok(0)) => { eof = true; break; }
-                            Ok(Ok(n)) => peer.inbuf.extend_from_slice(&tmp[..n]),
+                            Ok(Ok(n)) => {
+                                peer.inbuf.extend_from_slice(&tmp[..n]);
+                                wrote = true; // the client may have been blocked on a full stream: look again
+                            }
                             _ => break,
                         }
                     }
@@ -527,9 +592,7 @@ async fn react(peers: &mut Vec<Peer>, t: &Torrent, info_hash: &[u8; 20]) {
                     let f = json!({"k": "Piece", "a": [i, b, l], "bad": bad});
                     let enc = encode_frame(&f, t, info_hash, &peers[pi].id);
                     emit("Send", format!("\"peer\":\"{}\",\"f\":{},\"auto\":true", peers[pi].addr, f));
-                    if let Some(s) = peers[pi].stream.as_mut() {
-                        let _ = s.write_all(&enc).await;
-                    }
+                    push(&mut peers[pi], &enc);
                     wrote = true;
                     quiesce().await;
                 }
